@@ -49,7 +49,7 @@ var fsMutate = map[string]bool{
 var fsRead = map[string]bool{
 	"os.Stat": true, "os.Lstat": true, "os.Open": true, "os.ReadDir": true, "os.ReadFile": true, "os.DirFS": true,
 	"os.Getwd": true, "os.IsNotExist": true, "os.IsExist": true, "os.Getenv": true, "os.LookupEnv": true, "os.Readlink": true,
-	"io/fs.WalkDir": true, "io/fs.ReadDir": true, "io/fs.Stat": true, "io/fs.ValidPath": true, "io/fs.ReadFile": true, "io/fs.Glob": true,
+	"io/fs.WalkDir": true, "io/fs.ReadDir": true, "io/fs.Stat": true, "io/fs.ReadFile": true, "io/fs.Glob": true,
 	"(*os.File).Close": true, "(*os.File).Stat": true, "(*os.File).Read": true, "(*os.File).Name": true, "(*os.File).Fd": true,
 	"(*os.File).ReadDir": true, "(*os.File).Readdir": true, "(*os.File).Readdirnames": true, "(*os.File).Seek": true,
 	"os.OpenRoot": true, "(*os.Root).Open": true, "(*os.Root).Stat": true, "(*os.Root).Lstat": true, "(*os.Root).Close": true,
@@ -114,7 +114,7 @@ func classifyExternal(f *ssa.Function) Effect {
 		}
 	}
 	switch name {
-	case "os.IsNotExist", "os.IsExist", "os.IsPermission", "os.IsTimeout", "os.IsPathSeparator", "io/fs.FormatFileInfo", "io/fs.FormatDirEntry", "io/fs.FileInfoToDirEntry":
+	case "os.IsNotExist", "os.IsExist", "os.IsPermission", "os.IsTimeout", "os.IsPathSeparator", "io/fs.ValidPath", "io/fs.FormatFileInfo", "io/fs.FormatDirEntry", "io/fs.FileInfoToDirEntry":
 		return EffPure
 	}
 	switch {
